@@ -80,11 +80,13 @@ struct Style {
     int fracPct;     // percentage of "generic" k/2^j values (the rest are small integers)
     bool wild;       // wild weights
     bool scaled;     // non-unit scales
-    Style() : tiny(false), fracPct(85), wild(false), scaled(false) {}
+    bool fine;       // small integers + k/1024: slacks of about 1e-3 are frequent (tolerance mutants)
+    Style() : tiny(false), fracPct(85), wild(false), scaled(false), fine(false) {}
 };
 
 static double genDesired(vh::Rng &r, const Style &s) {
     if (s.tiny) return (double) r.range(0, 2);
+    if (s.fine) return (double) r.range(-6, 6) + (double) r.range(-3, 3) / 1024.0;
     if (r.range(0, 99) >= s.fracPct) return (double) r.range(-20, 20);
     int j = (int) r.range(1, 6);
     long lim = std::min(4096L, 20L << j);
@@ -93,6 +95,7 @@ static double genDesired(vh::Rng &r, const Style &s) {
 // negPct = percentage of non-positive gaps (a third of those are exactly 0)
 static double genGap(vh::Rng &r, const Style &s, int negPct) {
     if (s.tiny) return (double) r.range(-1, 2);
+    if (s.fine) return (double) r.range(negPct >= 50 ? -3 : -1, 4) + (double) r.range(-3, 3) / 1024.0;
     bool neg = r.range(0, 99) < negPct;
     bool integer = r.range(0, 99) >= s.fracPct;
     if (neg) {
@@ -234,6 +237,9 @@ static const ClassRow CLASSES[] = {
     {"weights-multi", B_MULTI,    false, false, true,   5,  5, false},
     {"tiny",          B_TINY,     false, false, false,  8,  6, false},
     {"big",           B_BIG,      false, false, false,  0,  2, false},
+    {"fine-dag",      B_DAG,      false, false, false,  4,  4, false},
+    {"fine-multi",    B_MULTI,    false, false, false,  4,  4, false},
+    {"fine-eq-multi", B_MULTI,    true,  false, false,  2,  2, false},
 };
 static const int NCLASSES = sizeof(CLASSES) / sizeof(CLASSES[0]);
 
@@ -284,6 +290,7 @@ static Problem genRandom(uint64_t seed, long g, bool thorough) {
     p.riskyClass = cl.risky;
     Style s;
     s.scaled = cl.scaled; s.wild = cl.wild;
+    s.fine = (p.tag.compare(0, 5, "fine-") == 0);
     Base base = cl.base;
     if (base == B_CYC_ANY) {
         static const Base B3[3] = {B_CYC_NEG, B_CYC_ZERO, B_CYC_POS};
@@ -564,10 +571,58 @@ static bool heldBack(const Problem &p, int r) {
     return p.riskyClass || (r == 2 && hasScale(p));
 }
 
+// --mode stdin: re-run case blocks given on stdin in the harness's own line format (the input lines
+// CASE/impl/n/var/ncon/con/init/op; output lines of an earlier run are ignored).  Used to replay stored
+// cases (corpus, minimised findings) independently of the generator's numbering.
+static int runFromStdin() {
+    char line[1 << 16];
+    Problem p; std::string impl; long k = 0; int m0 = 0; std::vector<POp> ops; bool open = false;
+    while (fgets(line, sizeof line, stdin)) {
+        char kw[64] = {0};
+        if (sscanf(line, "%63s", kw) != 1) continue;
+        std::string w = kw;
+        if (w == "CASE") {
+            char tag[256] = {0};
+            sscanf(line, "CASE %ld %255s", &k, tag);
+            p = Problem(); p.tag = tag; ops.clear(); m0 = 0; impl.clear(); open = true;
+        } else if (!open) continue;
+        else if (w == "impl") { char b[64]; sscanf(line, "impl %63s", b); impl = b; }
+        else if (w == "n") { int n; sscanf(line, "n %d", &n); p.setN(n); }
+        else if (w == "var") {
+            int i; char a[64], b[64], c[64];
+            if (sscanf(line, "var %d %63s %63s %63s", &i, a, b, c) == 4 && i >= 0 && i < p.n) {
+                p.des[i] = strtod(a, 0); p.wt[i] = strtod(b, 0); p.sc[i] = strtod(c, 0);
+            }
+        } else if (w == "con") {
+            int j, l, r, eq; char g[64];
+            if (sscanf(line, "con %d %d %d %63s %d", &j, &l, &r, g, &eq) == 5) {
+                PCon c = {l, r, strtod(g, 0), eq}; p.cons.push_back(c);
+            }
+        } else if (w == "init") sscanf(line, "init %d", &m0);
+        else if (w == "op") {
+            long t; char kind[32] = {0}; int idx = 0; char val[64] = {0};
+            int got = sscanf(line, "op %ld %31s %d %63s", &t, kind, &idx, val);
+            std::string kd = kind;
+            POp o = {OP_SOLVE, 0, 0.0};
+            if (kd == "add") { o.kind = OP_ADD; o.idx = idx; }
+            else if (kd == "move") { o.kind = OP_MOVE; o.idx = idx; o.val = got >= 4 ? strtod(val, 0) : 0.0; }
+            else if (kd == "satisfy") o.kind = OP_SATISFY;
+            ops.push_back(o);
+        } else if (w == "END") {
+            if (impl == "vpsc-inc") runCase<VpscInc>(k, p, m0, ops);
+            else if (impl == "avoid-inc") runCase<AvoidInc>(k, p, m0, ops);
+            else if (impl == "vpsc-static") runCase<VpscStatic>(k, p, m0, ops);
+            open = false;
+        }
+    }
+    return 0;
+}
+
 } // namespace
 
 int main(int argc, char **argv) {
     vh::Args a = vh::parseArgs(argc, argv);
+    if (a.mode == "stdin") return runFromStdin();
     const bool thorough = (a.tier == "thorough");
     const bool risky = (a.mode == "risky");
     Exh exh(thorough);
